@@ -30,7 +30,8 @@
   specification's fuel (`length + 1`) never runs out before the machine stops.
   Kinds still outside `Sub`: maps inside other types and maps with a repeated key (`exec_compile_eq_stream_map_partial` covers
   map[string]E at the top with pairwise different keys; with a repeated key the statement is false, below), `,string` fields
-  (false, below), integer / TextUnmarshaler map keys, json.Number, []byte, named types (callbacks; `Stream.decode` itself answers
+  (false, below), integer / float / TextUnmarshaler map keys (the machine runs them - `intKeyOp`, `floatKeyOp`, `textKeyOp` in
+  Model/DirExec.lean, tied by the differential run only), json.Number, []byte, named types (callbacks; `Stream.decode` itself answers
   `outside` there, also for the recursive library types reached through `_OP_recurse`).  The full statement does not
   hold on the faithful model outside the sub-universe: `map_dup_key_deviates`, `string_opt_deviates`
   (`exec_compile_eq_stream_fails`); both are listed findings of C01 (C01-map-dup-key-merges-element,
@@ -45,7 +46,9 @@
   NAMED POINTER TYPES (finding C09-jitdec-namedptr-inline-depth).  The compile model knows `type DirRef *MV` (tied by
   disassembly like the rest); the machine runs `_OP_unmarshal_p` for the library's MV.  `namedptr_inline_depth_fails`: the same
   type compiled at MaxInlineDepth 3 and 8 gives two different values on the same document (`namedptr_programs_differ`: one
-  program defers to the method, the other calls nothing); `namedptr_field_is_unnamed`: as a struct field the type loses its name.
+  program defers to the method, the other calls nothing); `namedptr_field_is_unnamed`: as a struct field the type loses its name,
+  and `field_defined_pointer_type_fails` (finding C01-field-defined-pointer-type-calls-elem-unmarshaler): there the element's
+  method is called at every depth, where the field-by-field decoding of the plain pointer-to-struct gives another value.
 -/
 import SonicSpec.Proofs.DirDepth
 import SonicSpec.Proofs.DirMap
@@ -313,6 +316,33 @@ theorem namedptr_field_is_unnamed :
       | .unmarshal (.ptr (.lib "MV")) 0 => true
       | _ => false) = true := by decide +kernel
 
+/-! ### finding C01-field-defined-pointer-type-calls-elem-unmarshaler, on the model -/
+
+def tFieldRef : GoType := .st [("A", none, .lib "DirRef")]
+/-- what encoding/json sees in `struct{ A DirRef }`: a pointer to a struct with the field V, no methods involved -/
+def tFieldPlain : GoType := .st [("A", none, .ptr (.st [("V", none, .int 64)]))]
+def dFieldRef : Bytes := ascii "{\"A\":{\"V\":5}}"
+def fieldV : GoVal → Option Int
+  | .st [.ptr (.st [.int v])] => some v
+  | _ => none
+
+/-- `…_fails` witness for "a field of a defined pointer type is decoded like the pointer to the plain struct it is"
+    (encoding/json: the defined type has no methods, the element is decoded field by field): `{"A":{"V":5}}` into
+    struct{A DirRef} from the zero value.  The program of the compiler - `namedptr_field_is_unnamed`: `_OP_unmarshal *MV`, because
+    resolver.go:168 rebuilt the field type with reflect.PtrTo - hands the text to (*MV).UnmarshalJSON, which knows only "mv":
+    V = 0, at every inline depth; the field-by-field decoding of the specification gives V = 5. -/
+theorem field_defined_pointer_type_fails :
+    ∃ v v' w, exec {} {} (some maxStack) (compile {} tFieldRef) dFieldRef (zeroOf tFieldRef) = .ok v ∧
+      exec {} { maxInlineDepth := 8 } (some maxStack) (compile { maxInlineDepth := 8 } tFieldRef) dFieldRef (zeroOf tFieldRef) = .ok v' ∧
+      Stream.decode {} tFieldPlain dFieldRef = .ok w ∧
+      fieldV v = some 0 ∧ fieldV v' = some 0 ∧ fieldV w = some 5 := by
+  obtain ⟨v, hv, pv⟩ := exec_ok_of (o := {}) (co := {}) (lim := some maxStack) (P := compile {} tFieldRef) (s := dFieldRef)
+    (dest := zeroOf tFieldRef) (n := 500) (fun v => fieldV v == some 0) (by decide +kernel)
+  obtain ⟨v', hv', pv'⟩ := exec_ok_of (o := {}) (co := { maxInlineDepth := 8 }) (lim := some maxStack) (P := compile { maxInlineDepth := 8 } tFieldRef)
+    (s := dFieldRef) (dest := zeroOf tFieldRef) (n := 500) (fun v => fieldV v == some 0) (by decide +kernel)
+  obtain ⟨w, hw, pw⟩ := stream_ok_of (o := {}) (T := tFieldPlain) (s := dFieldRef) (fun v => fieldV v == some 5) (by decide +kernel)
+  exact ⟨v, v', w, hv, hv', hw, by simpa using pv, by simpa using pv', by simpa using pw⟩
+
 /-- a value nested deeper than the value stack: the run ends in the nesting-depth error (with a stack of 2 slots,
     `[[[1]]]` into [][][]int64), while the specification - like encoding/json, which only has its 10000-level limit - decodes -/
 theorem too_deep_witness :
@@ -383,6 +413,18 @@ example : (match Stream.decode {} (.map .str (.sl (.int 64))) (ascii "{\"a\": [1
       | _ => false) = true ∧
     (match execFuel 1000 {} {} (some maxStack) (compile {} (.map .str (.sl (.int 64)))) (ascii "{\"a\": [1, 2], \"b\": [], \"\": null}") .nil with
       | some (.ok (.map [(_, .sl [.int 1, .int 2]), (_, .sl []), (_, .nil)])) => true
+      | _ => false) = true := by decide +kernel
+
+/-- maps INSIDE other types (struct field, slice element, map value) are not covered by a theorem yet; on this document with
+    pairwise different keys the program and the specification agree (what the general statement would say) -/
+def tNest : GoType := .st [("M", none, .map .str (.sl (.int 64))), ("L", none, .sl (.map .str (.int 64))), ("N", none, .map .str (.map .str .bool))]
+def dNest : Bytes := ascii "{\"M\": {\"a\": [1], \"b\": null}, \"L\": [{\"x\": 1}, {}, {\"x\": 2, \"y\": 3}], \"N\": {\"p\": {\"q\": true}}}"
+def isNest : GoVal → Bool
+  | .st [.map [(_, .sl [.int 1]), (_, .nil)], .sl [.map [(_, .int 1)], .map [], .map [(_, .int 2), (_, .int 3)]], .map [(_, .map [(_, .bool true)])]] => true
+  | _ => false
+example : (match Stream.decode {} tNest dNest with | .ok v => isNest v | _ => false) = true ∧
+    (match execFuel 2000 {} {} (some maxStack) (compile {} tNest) dNest (zeroOf tNest) with
+      | some (.ok v) => isNest v
       | _ => false) = true := by decide +kernel
 
 /-- DisallowUnknownFields: the specification saves the error, the machine stops at the key - both refuse -/
